@@ -84,7 +84,9 @@ def mutations(b, rng, budget):
 
 TYPE_BODIES = ['1', '"s"', '@a', '@b', '@a | @b', '@b | @c', '{\n  @a: 1\n}', '{\n  @b: "x"\n}', '{ // {allOf: "@a"}\n}', '{ // {allOf: ["@b", "@c"]}\n}',
                '1 // {type: "@a"}', '1 // {or: ["@a", "@b"]}', '{ // {additionalProperties: "@a"}\n}', '[\n  @a\n]', '{\n  "k": @a // {optional: true}\n}',
-               '"x" // {enum: @e}', '1 // {or: [{type: "@a", nullable: true}, {type: "@b"}]}', '@c']
+               '"x" // {enum: @e}', '1 // {or: [{type: "@a", nullable: true}, {type: "@b"}]}', '@c',
+               # several mandatory members that refer to the same or to different types (cycles met more than once on one walk)
+               '{\n  "x": @a,\n  "y": @a\n}', '{\n  "x": @b,\n  "y": @b\n}', '{\n  "x": @b,\n  "y": @c,\n  "z": @b\n}', '{\n  "x": @c,\n  "y": [\n    @a\n  ],\n  "z": @c\n}']
 
 
 class Prop:
@@ -159,7 +161,7 @@ class Prop:
         add('regex ' + hx('/' + '(a|b)*' * (N // 1000) + '/'), 'regex-size')
         add('regex ' + hx('/' + '(' * 2000 + 'a' + ')' * 2000 + '/'), 'regex-size')
         # 3. every configuration of three types over a pool of bodies, with roots that use them in every position
-        roots = ['@a', '@a | @b', '{\n  @a: 1\n}', '{ // {allOf: "@a"}\n}', '1 // {type: "@a"}', '1 // {or: ["@a", "@c"]}', '{ // {additionalProperties: "@a"}\n}', '[\n  @a, @c\n]']
+        roots = ['{\n  "k": @a\n}', '{\n  "k": @a,\n  "l": @b\n}', '@a', '@a | @b', '{\n  @a: 1\n}', '{ // {allOf: "@a"}\n}', '1 // {type: "@a"}', '1 // {or: ["@a", "@c"]}', '{ // {additionalProperties: "@a"}\n}', '[\n  @a, @c\n]']
         combos = list(itertools.product(TYPE_BODIES, repeat=3))
         if not big:
             combos = rng.sample(combos, 700)
@@ -167,6 +169,10 @@ class Prop:
             r = rng.choice(roots)
             for style in ('', ' all'):
                 add('proj all %s%s' % (spec(r, {'@a': a, '@b': b, '@c': c}, {'@e': '["x", 1]'}), style), 'type-configuration')
+        multi = [b for b in TYPE_BODIES if b.count('@') >= 2 and b.startswith('{\n  "x"')]
+        for (a, b, c) in itertools.product(multi, repeat=3):
+            for r in roots[:3]:
+                add('proj all %s' % spec(r, {'@a': a, '@b': b, '@c': c}, {'@e': '["x", 1]'}), 'type-configuration-multi-link')
         self.exhaustive_note = ('every prefix and every single-byte deletion of %d schemas, enums, regexes, JSON documents and numbers; %s configurations of three user types over %d bodies'
                                 % (len(schemas) + len(samples.ENUMS) + len(samples.REGEXES) + len(samples.JSONS) + len(nums), 'all %d' % len(combos) if big else '700 random', len(TYPE_BODIES)))
         return cs
